@@ -64,7 +64,12 @@ def run(chk, w):
     # ---- TAB / PKT
     E = intervals.Engine(w, set())
     chk.rule("C12-TAB", "every variable subscript of a fixed-size table or local array in the receiver's call tree is in range")
-    send_bufs = {g for g in P.globals if g.split(".u")[0] in ("buffer", "buffer_aux") and P.globals[g].get("internal")}
+    from . import c01 as _c01
+    try:
+        _sr = _c01.send_roles(w)
+        send_bufs = set(_sr["staging"]) | set(_sr["batch"])
+    except AnalysisBroken:
+        send_bufs = set()
     n = 0
     for name in sorted(rxf):
         f = P.functions[name]
